@@ -70,6 +70,11 @@ let () =
       | None -> (match toks with
                  | "history" :: _ -> Printf.printf "%d history\n" !ln
                  | "gettagref" :: _ -> let (s', r) = m_gettagref !st (zi 1) (zi 2) in st := s'; show r
+                 | "key" :: _ -> let k = aN_CREATE_KEY (zi 1) (zi 2) in
+                   Printf.printf "%d ok %d %d %d\n" !ln (iz k) (iz (aN_KEY2TYPE k)) (iz (aN_KEY2REF k))
+                 | "cmp" :: _ -> Printf.printf "%d ok %d\n" !ln (iz (aNIanncmp (zi 1) (zi 2)))
+                 | "codec" :: _ -> let b0 = uINT16ENCODE_b0 (zi 1) and b1 = uINT16ENCODE_b1 (zi 1) in
+                   Printf.printf "%d ok %d %d %d\n" !ln (iz b0) (iz b1) (iz (uINT16DECODE b0 b1))
                  | "atype2tag" :: _ -> Printf.printf "%d ok %d\n" !ln (iz (m_atype2tag (zi 1)))
                  | "tag2atype" :: _ -> Printf.printf "%d ok %d\n" !ln (iz (m_tag2atype (zi 1)))
                  | _ -> Printf.printf "%d skip\n" !ln)
